@@ -76,8 +76,8 @@ unary("np.nancumsum", np.nancumsum, [{}, {"axis": 1}], [(4,), (2, 3)], gen="nan"
 unary("np.cumulative_sum", np.cumulative_sum, [{"axis": 0}, {"axis": 1, "include_initial": True}], [(4,), (2, 3)])
 with_out("np.cumsum", np.cumsum, {"axis": 0}, (2, 3), (2, 3))
 unary("np.diff", np.diff, [{}, {"n": 2}, {"axis": 0}], [(4,), (2, 3), (3, 3)], dts="fi")
-T("np.diff", "prepend|(4,)", lambda a, p: np.diff(a, prepend=p), {"a": I("X", (4,)), "p": I("X", (1,))})
-T("np.diff", "append|(4,)", lambda a, p: np.diff(a, append=p), {"a": I("X", (4,)), "p": I("X", (2,))})
+T("np.diff", "prepend|(4,)", lambda a, p: np.diff(a, prepend=p), {"a": I("X", (4,)), "p": I("X", (1,))}, dts="fi")
+T("np.diff", "append|(4,)", lambda a, p: np.diff(a, append=p), {"a": I("X", (4,)), "p": I("X", (2,))}, dts="fi")
 unary("np.ediff1d", np.ediff1d, [{}], [(4,), (2, 3)])
 T("np.ediff1d", "to_end-positional|(4,)", lambda a, e: np.ediff1d(a, e), {"a": I("X", (4,)), "e": I("X", ())})
 T("np.ediff1d", "to_end,to_begin-positional|(4,)", lambda a, e, b: np.ediff1d(a, e, b), {"a": I("X", (4,)), "e": I("X", (2,)), "b": I("X", ())})
